@@ -67,6 +67,12 @@ def run(ck):
     from .c03 import s2_s5_line_walk
     ck.run_rule(x3_poll_placement)
     ck.run_rule(s2_s5_line_walk)
+    # the tree the search walks is made of successor positions: a reply that the successor function loses (an en passant target never
+    # set) turns an escapable check into a reported mate (C02's U rules)
+    from . import c02 as _c02
+    _ctx = {}
+    for _r in (_c02.collect_sets, _c02.u0_u4_piece_updates, _c02.u1_rook_relocation, _c02.u2_rights, _c02.u3_u5_state_fields):
+        ck.run_rule(_r, _ctx)
 
 
 def _params(b):
@@ -268,6 +274,17 @@ def r_negamax(ck, fn):
         in_check = any(tk is True and is_call(c, "weechess_core::state::State::is_check") for c, tk in g)
         ck.req(ply_ok and in_check, "R6.terminal_score", "%s@bb%d" % (short, bb), b.where(line),
                "a mate score returned by the search itself is not `-mate_in_ply(ply of this node)` under `in check` (the side to move is the mated one): %s" % show(v)[:100])
+    # ---- R14: no fixed score without a search. A constant returned by the node (the draw score) stands for a position whose value is known
+    # without looking at its moves: that is the case for a position already on the line of play (the history lookup) and for nothing else -
+    # a move-count or material shortcut placed before the moves are generated also covers positions where the side to move is mated
+    fixed = [(bb, line, v, g) for bb, line, v, g in rets
+             if v[0] == "const" or (v[0] == "agg" and all(isinstance(x, tuple) and x and x[0] in ("int", "const") for x in v[2]))]
+    for bb, line, v, g in fixed:
+        rep = any(tk is not False and any(x[0] == "call" and "StateHistory" in x[1] for x in walk(c)) for c, tk in g)
+        ck.req(rep, "R14.fixed_score", "%s@%s" % (short, show(v)[:24]), b.where(line),
+               "the node returns the fixed score %s without searching, on a path that does not test the history of played positions (guards: %s): "
+               "a forced mate below or at this node is not found" % (show(v)[:40], "; ".join("%s=%s" % (show(c)[:50], tk) for c, tk in g[:4])),
+               "fixed score only for a position on the line of play")
     ck.floor("R6", len(terms_) + len(inline_mates), 1, "evaluator-scored returns in %s" % short)
     for bb, line, v in terms_:
         a = v[2]
